@@ -295,19 +295,56 @@ def phase_right(exe, rep, files, tier):
         rep.samples.append({"phase": "right", "file": files[0]})
 
 
+def ref_gap(ref_off, c, offs):
+    """instant at which the reference changes offset so that local reading c is skipped: (T, a, b) or None"""
+    lo, hi = c - max(offs) - 1, c - min(offs) + 1
+    a, b = ref_off(lo), ref_off(hi)
+    if a == b or b <= a:
+        return None
+    # bisect for the first instant with an offset different from a (one change assumed; verified below)
+    l, h = lo, hi
+    while h - l > 1:
+        m = (l + h) // 2
+        if ref_off(m) == a:
+            l = m
+        else:
+            h = m
+    t = h
+    if ref_off(t) != b or ref_off(t - 1) != a:
+        return "complex"
+    if t + a <= c < t + b:
+        return (t, a, b)
+    return None
+
+
 def phase_mktime(exe, rep, files, tier):
-    """local times around every transition since 1970: valid instants found by tz-rs == inverse image under each reference"""
+    """local times around every transition since 1970 (table and footer rule): valid instants found by tz-rs == inverse image
+    under each reference; a skipped local time must be reported at the instant where each reference changes offset"""
     deltas = [-10800, -3600, -900, 0, 900, 3600, 10800] if tier != "thorough" else list(range(-10800, 10801, 900))
+    # pass 1: footer-rule transitions after the table (instants picked by the reference model inside tzmc)
+    req = []
+    for p in files:
+        req.append("F " + p)
+        req.append("X 2038 2041")
+        req.append("X 1972 1975")
+    res = tzmc_dump(exe, req)
+    rule_trans = {}
+    for i, p in enumerate(files):
+        xs = []
+        for line in (res[3 * i + 1], res[3 * i + 2]):
+            xs += [int(x) for x in line.split(" ")[1:] if x]
+        rule_trans[p] = xs
     req, plan = [], []
     for k, p in enumerate(files):
         z = read_tzif(p)
         offs = sorted(set(o for o, _, _ in z["types"]))
         trans = [t for t, _ in z["trans"] if 0 <= t < 2 ** 33]
+        last = z["trans"][-1][0] if z["trans"] else -2 ** 62
         if tier != "thorough":
             trans = trans[::3] if len(trans) > 60 else trans
+        trans = trans + [t for t in rule_trans[p] if t > last]
         req.append("F " + p)
         plan.append((p, None, offs, z))
-        prev_off = None
         for t in trans:
             # local readings: transition instant shifted by each offset of the zone, +- the deltas, +-1 s
             for o in offs[:6]:
@@ -331,17 +368,27 @@ def phase_mktime(exe, rep, files, tier):
         if line.startswith("L ERR"):
             rep.violation({"kind": "mktime", "file": p, "local": c}, "search succeeds", line)
             continue
-        got = sorted(int(x) for x in line[2:].split(",") if x)
+        valid_part, _, skipped_part = line[2:].partition("|")
+        got = sorted(int(x) for x in valid_part.split(",") if x)
+        got_skipped = sorted(tuple(int(v) for v in x.split(":")) for x in skipped_part.split(",") if x)
         cands = [c - o for o in offs]
-        if nofoot and last is not None and any(u >= last for u in cands):
+        if nofoot and last is not None and any(u >= last - 1 for u in cands):
             rep.exclude("mktime_candidate_after_last_transition_without_footer")
             continue
-        exp_zi = sorted(set(u for u, o in zip(cands, offs) if zi_lookup(cur_zi, u)[0] == o))
-        exp_gl = sorted(set(u for u, o in zip(cands, offs) if glibc_lookup(u)[0] == o))
-        if got != exp_zi:
-            rep.violation({"kind": "mktime", "file": p, "local": c, "reference": "zoneinfo"}, exp_zi, got)
-        if got != exp_gl:
-            rep.violation({"kind": "mktime", "file": p, "local": c, "reference": "glibc"}, exp_gl, got)
+        for name, fwd in (("zoneinfo", lambda u: zi_lookup(cur_zi, u)[0]), ("glibc", lambda u: glibc_lookup(u)[0])):
+            exp = sorted(set(u for u, o in zip(cands, offs) if fwd(u) == o))
+            if got != exp:
+                rep.violation({"kind": "mktime", "file": p, "local": c, "reference": name}, exp, got)
+            elif not exp:
+                # skipped local time: the reported gap must sit where the reference changes offset
+                g = ref_gap(fwd, c, offs)
+                if g == "complex":
+                    rep.exclude("mktime_gap_with_several_reference_transitions_in_window")
+                    continue
+                exp_sk = [g] if g else []
+                rep.add("mktime_gap_comparisons")
+                if got_skipped != exp_sk:
+                    rep.violation({"kind": "mktime_gap", "file": p, "local": c, "reference": name}, {"skipped_at(instant, offset before, offset after)": exp_sk}, {"skipped": got_skipped})
         if len(got) != 1:
             rep.add("mktime_nontrivial")
 
